@@ -10,6 +10,8 @@ from productmd.images import SUPPORTED_IMAGE_TYPES, SUPPORTED_IMAGE_FORMATS
 import productmd.treeinfo
 
 KINDS = ["none", "bool", "int", "float", "str", "list", "dict"]
+# kinds an attribute of an object can also have (no JSON document can contain them): never inside any documented domain
+OBJECT_KINDS = KINDS + ["set", "tuple", "bytes"]
 
 
 # rules whose documented pattern says "digit" with \d: whether a non-ASCII decimal digit counts is a documentation-silent corner
@@ -32,6 +34,12 @@ def make_value(sym, kind, name, maxlen, rule=None):
             sym.assume(sym.chars_in(s, "ascii"))
         sym.assume(sym.no_char(s, "\n"))
         return s
+    if kind == "set":
+        return set(["Client", "Server"])
+    if kind == "tuple":
+        return ("Client",)
+    if kind == "bytes":
+        return b"Client"
     if kind == "list":
         return [["x"], []][len(name) % 2]
     if kind == "dict":
